@@ -74,6 +74,8 @@ def strategy(tier):
                                        (0, 0, 300), (10**6, 10**5, 77)]))
     return st.fixed_dictionaries(dict(
         nfields=st.sampled_from([7, 8, 9, 10, 10, 10]),
+        # blocking calls: time.sleep(interval) takes this much longer than asked
+        oversleep=st.sampled_from([0, 0, 0, 0.5, 1.0, 3.0]),
         cpu_ids=st.sampled_from([[0], [0, 1], [0, 1, 2, 3], [0, 2], [1, 3, 5],
                                  [0, 1, 2, 3, 4, 5, 6, 7], [0, 1, 2, 3, 4, 5, 6, 7, 8, 9, 10, 11]]),
         base=st.lists(st.one_of(st.integers(0, 10**7),
@@ -189,6 +191,7 @@ def run_case(case):
     k = simk.Kernel(ncpus=len(m.ids))
     k.set_file("/proc/stat", m.render())
     proc = k.spawn(777, comm=b"w", utime=5, stime=7, starttime=100)
+    k.oversleep = case.get("oversleep", 0)
     labels = set()
     last = {}  # (family, thread) -> snapshot part used as "previous sample"
     workers = Workers(case["nthreads"])
@@ -267,6 +270,8 @@ def run_case(case):
                                             f"cpu_percent({interval!r}) = {got!r}; "
                                             f"100*{float(dcpu)}/{float(dwall)} = {float(exp)!r}")
                         labels.add("proc-blocking" if blocking else "proc-nonblocking")
+                        if blocking and k.oversleep:
+                            labels.add("proc-blocking-oversleep")
                         if any(dother):
                             labels.add("proc-children-or-iowait-grew")
                         if dwall == 0:
